@@ -228,4 +228,74 @@ theorem cloneKids_content (f : Nat) (src dest : List Blk) (ks : List (Option Nat
           simp only [List.length_set, List.length_append, List.length_cons, List.length_nil] at h2 hlen
           omega
 
+/-- **Every reference of every appended block resolves** (or never resolved in the source): not only the re-assigned
+references of the block being processed, but those of all blocks the recursion added below it. -/
+theorem cloneKids_all_settled (f : Nat) (src dest : List Blk) (ks : List (Option Nat)) (pO pN : Option Nat)
+    (hf : fuelOK f src dest ks pO pN = true) :
+    ∀ idx b, dest.length ≤ idx → (cloneKids f src dest ks pO pN).1[idx]? = some b →
+      ∀ k ∈ b.kids, settled src (cloneKids f src dest ks pO pN).1 k := by
+  induction f generalizing dest ks pO pN with
+  | zero =>
+    intro idx b hidx hb
+    simp only [cloneKids] at hb
+    have : idx < dest.length := by
+      rcases Nat.lt_or_ge idx dest.length with h | h
+      · exact h
+      · rw [List.getElem?_eq_none h] at hb; cases hb
+    omega
+  | succ f ih =>
+    cases ks with
+    | nil =>
+      intro idx b hidx hb
+      simp only [cloneKids] at hb
+      have : idx < dest.length := by
+        rcases Nat.lt_or_ge idx dest.length with h | h
+        · exact h
+        · rw [List.getElem?_eq_none h] at hb; cases hb
+      omega
+    | cons r rs =>
+      simp only [cloneKids]
+      simp only [fuelOK] at hf
+      split
+      · next hnone =>
+        rw [hnone] at hf
+        exact ih dest rs pO pN hf
+      · next c hc =>
+        rw [hc] at hf
+        simp only [Bool.and_eq_true] at hf ⊢
+        -- abbreviations
+        generalize hsub : cloneKids f src (dest ++ [rebind c pO pN]) (rebind c pO pN).kids
+          (if pO.isSome then pO else r) (if pO.isSome then pN else some dest.length) = sub at hf ⊢
+        have hsubSet := cloneKids_settled f src (dest ++ [rebind c pO pN]) (rebind c pO pN).kids
+          (if pO.isSome then pO else r) (if pO.isSome then pN else some dest.length) hf.1
+        have hsubAll := ih (dest ++ [rebind c pO pN]) (rebind c pO pN).kids
+          (if pO.isSome then pO else r) (if pO.isSome then pN else some dest.length) hf.1
+        have hsubLen := cloneKids_length_le f src (dest ++ [rebind c pO pN]) (rebind c pO pN).kids
+          (if pO.isSome then pO else r) (if pO.isSome then pN else some dest.length)
+        rw [hsub] at hsubSet hsubAll hsubLen
+        simp only [List.length_append, List.length_cons, List.length_nil] at hsubLen
+        generalize hd3 : sub.1.set dest.length { rebind c pO pN with kids := sub.2 } = d3 at hf ⊢
+        have hd3len : d3.length = sub.1.length := by rw [← hd3]; simp
+        -- all blocks of d3 from dest.length on are settled w.r.t. d3
+        have hd3All : ∀ idx b, dest.length ≤ idx → d3[idx]? = some b → ∀ k ∈ b.kids, settled src d3 k := by
+          intro idx b hidx hb k hk
+          rw [← hd3] at hb
+          by_cases he : idx = dest.length
+          · subst he
+            rw [List.getElem?_set_self (by omega)] at hb
+            cases hb
+            exact settled_mono src sub.1 d3 k (by omega) (hsubSet k hk)
+          · rw [List.getElem?_set_ne (by omega)] at hb
+            exact settled_mono src sub.1 d3 k (by omega)
+              (hsubAll idx b (by simp only [List.length_append, List.length_cons, List.length_nil]; omega) hb k hk)
+        have hresAll := ih d3 rs pO pN hf.2
+        have hresLen := cloneKids_length_le f src d3 rs pO pN
+        obtain ⟨t, ht⟩ := cloneKids_prefix f src d3 rs pO pN
+        intro idx b hidx hb k hk
+        by_cases hlt : idx < d3.length
+        · -- an older block: unchanged by the rest of the loop
+          rw [ht, List.getElem?_append_left hlt] at hb
+          exact settled_mono src d3 _ k hresLen (hd3All idx b hidx hb k hk)
+        · exact hresAll idx b (by omega) hb k hk
+
 end Nifly.Clone
